@@ -9,12 +9,50 @@ import (
 	"os"
 	"runtime/debug"
 
+	"github.com/notaryproject/notation-go/xverif/c01"
+	"github.com/notaryproject/notation-go/xverif/c02"
+	"github.com/notaryproject/notation-go/xverif/c03"
+	"github.com/notaryproject/notation-go/xverif/c04"
+	"github.com/notaryproject/notation-go/xverif/c05"
+	"github.com/notaryproject/notation-go/xverif/c06"
+	"github.com/notaryproject/notation-go/xverif/c07"
+	"github.com/notaryproject/notation-go/xverif/c08"
+	"github.com/notaryproject/notation-go/xverif/c09"
 	"github.com/notaryproject/notation-go/xverif/c10"
+	"github.com/notaryproject/notation-go/xverif/c11"
+	"github.com/notaryproject/notation-go/xverif/c12"
+	"github.com/notaryproject/notation-go/xverif/c13"
+	"github.com/notaryproject/notation-go/xverif/c14"
+	"github.com/notaryproject/notation-go/xverif/c15"
+	"github.com/notaryproject/notation-go/xverif/c16"
+	"github.com/notaryproject/notation-go/xverif/c17"
+	"github.com/notaryproject/notation-go/xverif/c18"
+	"github.com/notaryproject/notation-go/xverif/c19"
+	"github.com/notaryproject/notation-go/xverif/c20"
 	"github.com/notaryproject/notation-go/xverif/common"
 )
 
 var props = map[string]func(*common.Ctx) error{
+	"C01": c01.Run,
+	"C02": c02.Run,
+	"C03": c03.Run,
+	"C04": c04.Run,
+	"C05": c05.Run,
+	"C06": c06.Run,
+	"C07": c07.Run,
+	"C08": c08.Run,
+	"C09": c09.Run,
 	"C10": c10.Run,
+	"C11": c11.Run,
+	"C12": c12.Run,
+	"C13": c13.Run,
+	"C14": c14.Run,
+	"C15": c15.Run,
+	"C16": c16.Run,
+	"C17": c17.Run,
+	"C18": c18.Run,
+	"C19": c19.Run,
+	"C20": c20.Run,
 }
 
 func main() {
